@@ -313,6 +313,10 @@ def _variants():
         V("addpoint-east-is-west", replace_expr(MP, "MeshPatt.add_point", "((x + 1, y), (x + 1, y + 1))", "((x, y), (x, y + 1))"), "fire", "C18-D1"),
         V("addpoint-north-one-cell", replace_expr(MP, "MeshPatt.add_point", "((x, y + 1), (x + 1, y + 1))", "((x, y + 1), (x, y + 1))"), "fire", "C18-D1"),
         V("addpoint-dirs-swapped", [replace_expr(MP, "MeshPatt.add_point", "shade_dir == DIR_WEST", "shade_dir == DIR_SOUTH"), replace_expr(MP, "MeshPatt.add_point", "shade_dir == DIR_SOUTH", "shade_dir == DIR_WEST", which=2)], "fire", "C18-D1"),
+        V("add-increase-second-point-same-row", replace_expr(MP, "MeshPatt.add_increase", "self.add_point((x, y)).add_point((x + 1, y + 1))", "self.add_point((x, y)).add_point((x + 1, y))"), "fire", "C18-D2"),
+        V("add-decrease-one-point", replace_expr(MP, "MeshPatt.add_decrease", "self.add_point((x, y)).add_point((x + 1, y))", "self.add_point((x, y))"), "fire", "C18-D2"),
+        V("shade-replaces", replace_expr(MP, "MeshPatt.shade", "self.shading | set(positions)", "set(positions)"), "fire-or-undecided", "C18-D2"),
+        V("add-point-allows-shaded", replace_stmt(MP, "MeshPatt.add_point", "assert pos not in self.shading", ""), "fire", "C18-D2"),
         V("lemma-skips-wrong-column", replace_expr(MP, "MeshPatt.north_east_shading_lemma_conditions", "n_x not in (x - 1, x)", "n_x not in (x, x + 1)"), "fire", "C18-N1"),
         V("lemma-both-to-either", replace_expr(MP, "MeshPatt.north_east_shading_lemma_conditions", "all(((x, y - 1) in self.shading, (x - 1, y) in self.shading))", "any(((x, y - 1) in self.shading, (x - 1, y) in self.shading))"), "fire", "C18-N1"),
         V("lemma-propagation-reversed", replace_expr(MP, "MeshPatt.north_east_shading_lemma_conditions", "(n_x, y - 1) in self.shading and (n_x, y) not in self.shading", "(n_x, y) in self.shading and (n_x, y - 1) not in self.shading"), "fire", "C18-N1"),
@@ -369,3 +373,41 @@ def run(ctx: Ctx) -> None:  # noqa: F811
 FLOORS["C18-N1"] = 1
 EXPLANATION = EXPLANATION.replace("NOT decided: the north-east side conditions themselves,", "(c) the single-cell north-east side conditions are the published Shading Lemma's conditions (N1, skeleton comparison "
                                   "modulo order of the conditions). NOT decided: the simultaneous (two-cell) side conditions,")
+
+
+# ------------------------------------------------------------------ D2: add_increase / add_decrease / shade by construction
+
+
+def rule_d2(ctx: Ctx) -> None:
+    from ..skelrules import check_skeleton
+
+    repo = ctx.repo
+    f = repo.need_method("MeshPatt", "add_increase")
+    ctx.run(check_skeleton, ctx, "C18-D2", f, ["x, y = a0\nreturn self.add_point((x, y)).add_point((x + 1, y + 1))"], "add_increase = a point in the cell, then a point north-east of it", required_calls=["add_point"])
+    f = repo.need_method("MeshPatt", "add_decrease")
+    ctx.run(check_skeleton, ctx, "C18-D2", f, ["x, y = a0\nreturn self.add_point((x, y)).add_point((x + 1, y))"], "add_decrease = a point in the cell, then a point south-east of it", required_calls=["add_point"])
+    f = repo.need_method("MeshPatt", "shade")
+    ctx.run(check_skeleton, ctx, "C18-D2", f, ["return MeshPatt(self.pattern, self.shading | set(va))", "return MeshPatt(self.pattern, self.shading.union(va))", "return MeshPatt(self.pattern, self.shading | frozenset(va))"],
+            "shade adds the given cells to the shading, same underlying pattern")
+    ap = repo.need_method("MeshPatt", "add_point")
+    first = ap.body[0]
+    if isinstance(first, ast.Assert) and unparse(first.test) == f"{ap.params[1]} not in self.shading":
+        ctx.ok("C18-D2", ap.where, "a point may only be added in an unshaded cell", first, ap)
+    else:
+        ctx.violation("C18-D2", ap, first, "add_point does not reject a shaded cell")
+    rets = [st for st in ap.body if isinstance(st, ast.Return)]
+    if len(rets) == 1 and unparse(rets[0].value).startswith("MeshPatt(self._add_point_new_perm(") and "self._add_point_base_shading(" in "".join(unparse(s) for s in ap.body):
+        ctx.ok("C18-D2", ap.where, "result = (pattern with the new point, split base shading + directional cells)", rets[0], ap)
+    else:
+        raise AnalysisError(f"{ap.where}: result construction not recognised")
+
+
+_OLD_RUN2 = run
+
+
+def run(ctx: Ctx) -> None:  # noqa: F811
+    _OLD_RUN2(ctx)
+    ctx.run(rule_d2, ctx)
+
+
+FLOORS["C18-D2"] = 5
